@@ -18,7 +18,7 @@ def run(tier):
     nk2, nt2 = (5, 4) if q else (8, 5)
     jobs += [chrun.Job(M, 'gorder', 300 if q else 1500, subst={'PART = -1': f'PART = {k}', 'NKIND2 = 5': f'NKIND2 = {nk2}', 'NTOK2 = 4': f'NTOK2 = {nt2}'},
                        label=f'gorder[first kind {k}]', twin=(k == 1)) for k in range(nk2)]
-    nlexeme, nlex = (15, 3) if q else (18, 4)
+    nlexeme, nlex = (15, 3) if q else (16, 4)
     jobs += pipe.jobs_for('vf/ch/matching.py', 'pairs', nlexeme, nlex, 300 if q else 2400,
                           extra_subst={'NLEXEME = 8': f'NLEXEME = {nlexeme}'}, why='pairs_why')
     for j in jobs:
